@@ -1683,7 +1683,8 @@ class SpaceUpdater(SharedSpaceOperations):
         if not nx.is_directed_acyclic_graph(self._graph):
             raise ValueError("cyclic inheritance")
 
-        self._graph.get_mro(node)  # Check if MRO is possible
+        mro = self._graph.get_mro(node)  # Check if MRO is possible
+        self._check_name_conflict(mro)
 
         # Check if MRO is possible for each node in sub graph
         for n in nx.descendants(self._graph, node):
@@ -1720,6 +1721,34 @@ class SpaceUpdater(SharedSpaceOperations):
 
         return space
 
+    def _check_name_conflict(self, mro, node=None):
+        """Check name conflict between spaces, cells, refs
+
+        Cells and references are inherited from the spaces in ``mro``,
+        child spaces are not.
+        """
+        members = {}
+        for attr in ["cells", "own_refs"]:
+            namechain = []
+            for sname in mro:
+                if "space" in self._graph.nodes[sname]:
+                    space = self._graph.to_space(sname)
+                    namechain.append(set(getattr(space, attr).keys()))
+            members[attr] = set().union(*namechain)
+        if node is not None and "space" in self._graph.nodes[node]:
+            members["spaces"] = set(
+                self._graph.to_space(node).named_spaces.keys())
+        else:
+            members["spaces"] = set()
+
+        conflict = (
+            (members["cells"] & members["own_refs"])
+            | (members["cells"] & members["spaces"])
+            | (members["own_refs"] & members["spaces"])
+        )
+        if conflict:
+            raise NameError("name conflict: %s" % conflict)
+
     def add_bases(self, space, bases):
         """Add bases to space in graph
         """
@@ -1751,18 +1780,7 @@ class SpaceUpdater(SharedSpaceOperations):
 
             mro = self._graph.get_mro(desc)
 
-            # Check name conflict between spaces, cells, refs
-            members = {}
-            for attr in ["spaces", "cells", "refs"]:
-                namechain = []
-                for sname in mro:
-                    space = self._graph.to_space(sname)
-                    namechain.append(set(getattr(space, attr).keys()))
-                members[attr] = set().union(*namechain)
-
-            conflict = set().intersection(*[n for n in members.values()])
-            if conflict:
-                raise NameError("name conflict: %s" % conflict)
+            self._check_name_conflict(mro, desc)
 
         self._instructions.append(
             Instruction(self._update_derived_space, (node,)))
